@@ -222,7 +222,7 @@ func errClass(err error) string {
 		{"does not start with", "bad-prefix"}, {"does not include an nbf", "no-nbf"}, {"does not include an exp", "no-exp"},
 		{"does not include a nonce", "no-nonce"}, {"does not include a req", "no-req"}, {"error parsing nbf", "parse-nbf"},
 		{"error parsing exp", "parse-exp"}, {"error parsing nonce", "decode-nonce"}, {"nbf is invalid", "nbf-invalid"},
-		{"exp is invalid", "exp-invalid"}, {"error parsing req", "decode-req"}, {"error opening sealed url", "open-fail"},
+		{"exp is invalid", "exp-invalid"}, {"nonce has an invalid length", "nonce-len"}, {"error parsing req", "decode-req"}, {"error opening sealed url", "open-fail"},
 		{"error parsing unsealed request uri", "parse-url"}, {"did not equal request path", "path-mismatch"}} {
 		if strings.Contains(s, p[0]) {
 			return "err " + p[1]
@@ -239,11 +239,6 @@ func implUnseal(s remotesrv.Sealer, u *url.URL) string {
 		}
 		return "ok " + hx.Hex([]byte(r.Path)) + " " + hx.Hex([]byte(r.RawQuery))
 	})
-	if strings.HasPrefix(out, "panic:") {
-		if strings.Contains(out, "incorrect nonce length") {
-			return "err panic-nonce-len"
-		}
-	}
 	return out
 }
 
@@ -670,8 +665,10 @@ func runSeal(e *hx.Env, m *hx.Model, s remotesrv.Sealer, key []byte, k kase) {
 			e.Rep.Violate("benign-changed:"+mu.id, "encoding-only change returned a different request: "+got, kk)
 			continue
 		}
-		if got == "err panic-nonce-len" {
-			e.Rep.Known("unseal-panic-nonce-length", "Unseal panics (crypto/cipher: incorrect nonce length given to GCM) instead of returning an error when the nonce parameter does not decode to 12 bytes", kk)
+		if strings.HasPrefix(got, "panic") && strings.Contains(got, "incorrect nonce length") {
+			// repaired in /repo (fix: Unseal rejects a nonce of the wrong length); a violation if it returns
+			e.Rep.Violate("unseal-panic-nonce-length", "Unseal panics (crypto/cipher: incorrect nonce length given to GCM) instead of returning an error when the nonce parameter does not decode to 12 bytes", kk)
+			continue
 		} else if strings.HasPrefix(got, "panic") || strings.HasPrefix(got, "err other") {
 			e.Rep.Violate("unseal-unexpected:"+mu.id, got, kk)
 			continue
